@@ -289,11 +289,16 @@ func (s *TranslateFile) WriteNotify() <-chan struct{} {
 func (s *TranslateFile) appendEntry(entry *LogEntry) error {
 	offset := s.n
 
-	// Append entry to the end of the WAL.
-	n, err := entry.WriteTo(s.w)
+	// Append entry to the end of the WAL with a single write. Going through
+	// the 4096-byte buffered writer split an entry larger than the buffer
+	// (long keys, large batches) into several writes; a process killed
+	// between them left a truncated entry at the end of the file, which
+	// replayEntries rejects, so the store could not be opened again.
+	var buf bytes.Buffer
+	n, err := entry.WriteTo(&buf)
 	if err != nil {
 		return err
-	} else if err := s.w.Flush(); err != nil {
+	} else if _, err := s.file.Write(buf.Bytes()); err != nil {
 		return err
 	}
 
